@@ -214,6 +214,9 @@ func (s *Sim) Step(r *Replica, moreToApply, busySnap bool, crash CrashPoint, cut
 	// the known single-voter window (apply and send before the WAL write) is excluded by
 	// moving the crash behind the WAL write when the finding is recorded as known
 	single := len(before.Voters) <= 1 || raft.VerifLogPeek(r.Node).Quorum <= 1
+	if crash == NoCrash && hasSnap && s.SnapCrash != nil {
+		crash = s.SnapCrash()
+	}
 	if crash != NoCrash && s.crashExcluded(r, &rd) {
 		s.St.ExcludedKnown++
 		crash = NoCrash
